@@ -169,6 +169,8 @@ class FnTranslator:
                 return '([%s] : List Int)' % ', '.join(str(b) for b in v), LINT
             raise Untranslatable(f'constant {v!r}')
         if isinstance(e, ast.Name):
+            if e.id in getattr(self.unit, 'globals_state', {}) and e.id not in self.env:
+                return f'(← get).{e.id}', self.unit.globals_state[e.id]      # a module global the function rebinds
             if e.id in self.env:
                 return self.env[e.id]
             return self.const_of_global(e.id)
@@ -770,6 +772,14 @@ class FnTranslator:
 
     # ---------- statements --------------------------------------------------
     def assign_target(self, tgt, val, vt, ind, out):
+        if isinstance(tgt, ast.Name) and tgt.id in getattr(self.unit, 'globals_state', {}) and tgt.id in getattr(self, 'declared_global', ()):
+            if vt != self.unit.globals_state[tgt.id]:
+                raise Untranslatable('type of the global ' + tgt.id)
+            if '(← get)' in val:
+                out.append(f'{ind}let v__ := {val}')
+                val = 'v__'
+            out.append(f'{ind}modify fun g => {{ g with {tgt.id} := {val} }}')
+            return
         if isinstance(tgt, ast.Name) and isinstance(vt, tuple) and vt[0] == 'FnVal':
             # f = TABLE.get(key): the key is evaluated here (it may raise), the function is looked up where it is used
             k = vt[5]
@@ -909,6 +919,19 @@ class FnTranslator:
             return pre + self.call_stmt(val, ind)
         if isinstance(s, ast.Pass):
             return [f'{ind}pure ()']
+        if isinstance(s, ast.Global):
+            for nme in s.names:
+                if nme not in getattr(self.unit, 'globals_state', {}):
+                    raise Untranslatable('global ' + nme)
+            self.declared_global = set(getattr(self, 'declared_global', ())) | set(s.names)
+            return []
+        if isinstance(s, ast.Try) and getattr(self.unit, 'ctxmgr', False) and not s.handlers and not s.orelse and s.finalbody \
+                and len(s.body) == 1 and isinstance(s.body[0], ast.Expr) and isinstance(s.body[0].value, ast.Yield) \
+                and s.body[0].value.value is None:
+            # @contextmanager: `try: yield  finally: F` - the block of the `with` statement runs at the yield; F runs
+            # afterwards whether the block raised or not
+            fin = self.block(s.finalbody, ind + '    ')
+            return [f'{ind}PM.tryFinally\' body (do'] + fin + [f'{ind}  )']
         if isinstance(s, ast.Return) and s.value is not None and isinstance(s.value, ast.Call) \
                 and isinstance(s.value.func, ast.Attribute) and s.value.func.attr == 'popleft' and not s.value.args:
             # return q.popleft()
@@ -1530,6 +1553,9 @@ class FnTranslator:
                 params.append(f'({oname}_{m} : Except Err {lty(t)})')
         if getattr(u, 'ext', False):
             params.insert(0, self.ext_sig())
+        if getattr(u, 'ctxmgr', False):
+            params.insert(0, '{α : Type}')
+            params.append(f'(body : PM {u.self_type} α)')
         body = []
         if u.cls is not None and not self.pm:
             body.append('  let mut self := self')
@@ -1544,7 +1570,7 @@ class FnTranslator:
             for k in rec.fields:
                 body.append(f'  let mut {name}_{k} := {name}_{k}')
         stmts = fn.body
-        self.is_gen = any(isinstance(x, ast.Yield) for x in ast.walk(fn))
+        self.is_gen = any(isinstance(x, ast.Yield) for x in ast.walk(fn)) and not getattr(u, 'ctxmgr', False)
         if self.is_gen and self.pm:
             body.append('  let mut out__ : List M := []')
             self.muts.append('out__')
@@ -1558,10 +1584,15 @@ class FnTranslator:
         blk = self.hoist_decls(self.block(stmts, '  '), '  ')
         body.extend(['  ' + x for x in getattr(self, 'pre_loop', [])])
         body.extend(blk)
-        if not self.terminates(stmts):
+        if getattr(u, 'ctxmgr', False):
+            if not (stmts and isinstance(stmts[-1], ast.Try)):
+                raise Untranslatable('context manager that does not end with try: yield finally: ...')
+        elif not self.terminates(stmts):
             # falling off the end returns None (the object state for methods)
             body.append(f'  return {self.ret_value(None)}')
-        if self.pm:
+        if getattr(u, 'ctxmgr', False):
+            rty = 'α'
+        elif self.pm:
             rty = '(List M)' if self.is_gen else (lty(u.ret) if u.ret not in (None, NONE) else 'Unit')
         elif u.cls is not None:
             rty = u.self_type if u.ret in (None, NONE) else f'({lty(u.ret)} × {u.self_type})'
@@ -1731,14 +1762,14 @@ class Translator:
         for d in cands[0].decorator_list:
             # a decorator changes what a call of the function does (a cache makes callers share one result object):
             # only the ones that merely bind the first argument are within the fragment
-            if not (isinstance(d, ast.Name) and d.id in ('classmethod', 'staticmethod')):
+            if not (isinstance(d, ast.Name) and d.id in ('classmethod', 'staticmethod', 'contextmanager')):
                 raise Untranslatable(f'function {name} is decorated with {ast.unparse(d)}')
         return cands[0]
 
     GROUPS = {'mido/messages/encode.py': 'Codec', 'mido/messages/decode.py': 'Codec', 'mido/messages/checks.py': 'Codec',
               'mido/tokenizer.py': 'Tok', 'mido/midifiles/meta.py': 'MetaNum', 'mido/midifiles/tracks.py': 'Tracks',
               'mido/midifiles/midifiles.py': 'FileIO', 'mido/parser.py': 'Parser', 'mido/ports.py': 'Ports'}
-    DEPS = {'Codec': [], 'Msg': ['Codec'], 'Tok': [], 'Parser': ['Tok'], 'Ports': [], 'MetaNum': [], 'Tracks': [], 'FileIO': ['MetaNum', 'Tracks']}
+    DEPS = {'Codec': [], 'Msg': ['Codec'], 'Tok': [], 'Parser': ['Tok'], 'Ports': [], 'Charset': [], 'MetaNum': [], 'Tracks': [], 'FileIO': ['MetaNum', 'Tracks']}
 
     def run_groups(self):
         """one generated file per group of source files, so that a function that cannot be translated (or an edit that
@@ -1749,6 +1780,9 @@ class Translator:
         for u in self.units:
             g = getattr(u, 'group', None) or self.GROUPS[u.file]
             defs = per[g]
+            if getattr(u, 'globals_state', None) and u.self_type not in structs:
+                structs[u.self_type] = u.struct_text
+                defs.append(structs[u.self_type])
             if u.cls is not None and u.self_type not in structs:
                 fl = '\n'.join(f'  {k} : {lty(t)} := {dflt}' for k, (t, dflt) in u.field_defaults.items())
                 if getattr(u, 'pm', False):
@@ -1913,6 +1947,13 @@ def units():
     u.local_types = {'track': LIST(EXTMSG), 'last_status': OPT_INT}
     U.append(u)
     U.append(Unit(M, 'check_int', [('value', INT), ('low', INT), ('high', INT)], NONE))
+    u = Unit(M, 'meta_charset', [('tmp_charset', STR)], NONE, self_type='MetaGlobals')
+    u.pm, u.ctxmgr, u.group = True, True, 'Charset'
+    u.globals_state = {'_charset': STR}
+    u.struct_text = ('/-- the module globals of mido/midifiles/meta.py that its functions rebind -/\n'
+                     'structure MetaGlobals where\n  _charset : String\n  deriving DecidableEq, Repr')
+    u.ext_sig = ''
+    U.append(u)
     u = Unit(M, 'from_bytes', [('msg_bytes', LINT)], EXTMSG, lean_name='MetaMessage.from_bytes', fuel={'loop1': 'msg_bytes.length + 1'})
     u.pycls, u.ext = 'MetaMessage', True
     U.append(u)
